@@ -275,7 +275,7 @@ func rulesC15(c *Ctx) {
 	if fn := c.MustFunc("C15.c", "configs.checkACL"); fn != nil {
 		same := false
 		ast.Inspect(fn.Decl.Body, func(n ast.Node) bool {
-			if call, ok := n.(*ast.CallExpr); ok && p.IsCall(call, "strings.Split") && len(call.Args) == 2 && p.isParam(fn, call.Args[0], 0) && strings.HasSuffix(p.Src(call.Args[1]), "Space") {
+			if call, ok := n.(*ast.CallExpr); ok && p.IsCall(call, "strings.Split") && len(call.Args) >= 2 && p.isParam(fn, call.Args[0], 0) && strings.HasSuffix(p.Src(call.Args[1]), "Space") {
 				same = true
 			}
 			return true
@@ -285,7 +285,7 @@ func rulesC15(c *Ctx) {
 	if fn := c.MustFunc("C15.c", "security.NewACL"); fn != nil {
 		same := false
 		ast.Inspect(fn.Decl.Body, func(n ast.Node) bool {
-			if call, ok := n.(*ast.CallExpr); ok && p.IsCall(call, "strings.Split") && len(call.Args) == 2 && p.isParam(fn, call.Args[0], 0) && strings.HasSuffix(p.Src(call.Args[1]), "Space") {
+			if call, ok := n.(*ast.CallExpr); ok && p.IsCall(call, "strings.Split") && len(call.Args) >= 2 && p.isParam(fn, call.Args[0], 0) && strings.HasSuffix(p.Src(call.Args[1]), "Space") {
 				same = true
 			}
 			return true
@@ -344,7 +344,7 @@ func rulesC15(c *Ctx) {
 			return true
 		})
 	}
-	c.Floor("C15.d", "ranges over maps in the validator", nMapRange, 2)
+	c.Floor("C15.d", "ranges over maps in the validator", nMapRange, 1)
 
 	// ------------------------------------------------------------------ C15.f hierarchy shape
 	c.Rule("C15.f", "checkQueueResource tests every queue maximum against the limit inherited from ALL its ancestors: the value handed to the children is ComponentWiseMin(own max, inherited max) and the own max is tested with inherited.FitInMaxUndef(own); children's guaranteed sums are tested against own guaranteed and own (merged) max")
@@ -352,9 +352,9 @@ func rulesC15(c *Ctx) {
 		for _, call := range p.callsIn(fn, "configs.checkQueueResource") {
 			st := p.StateAt(fn, call)
 			ok := false
-			if len(call.Args) == 2 {
+			if len(call.Args) >= 2 {
 				for _, t := range p.chain(T(call.Args[1], st)) {
-					if mc, isCall := unparen(t.E).(*ast.CallExpr); isCall && p.IsCall(mc, "resources.ComponentWiseMin") && len(mc.Args) == 2 {
+					if mc, isCall := unparen(t.E).(*ast.CallExpr); isCall && p.IsCall(mc, "resources.ComponentWiseMin") && len(mc.Args) >= 2 {
 						if p.isParam(fn, mc.Args[1], 1) || p.isParam(fn, mc.Args[0], 1) {
 							ok = true
 						}
